@@ -42,11 +42,12 @@ type pfState struct {
 	nonNil map[string]bool   // value at key is not nil
 	dyn    map[string]string // interface value at key has this dynamic type
 	eq     map[string]lin    // integer-typed value at key equals this constant / caller term
+	ub     map[string][]lin  // loop variable (phi) at key <= each bound
 	dead   bool              // unreachable (pruned)
 }
 
 func newState() *pfState {
-	return &pfState{lenGE: map[string][]lin{}, nonNil: map[string]bool{}, dyn: map[string]string{}, eq: map[string]lin{}}
+	return &pfState{lenGE: map[string][]lin{}, nonNil: map[string]bool{}, dyn: map[string]string{}, eq: map[string]lin{}, ub: map[string][]lin{}}
 }
 
 func (s *pfState) clone() *pfState {
@@ -54,6 +55,9 @@ func (s *pfState) clone() *pfState {
 	o.dead = s.dead
 	for k, v := range s.lenGE {
 		o.lenGE[k] = append([]lin(nil), v...)
+	}
+	for k, v := range s.ub {
+		o.ub[k] = append([]lin(nil), v...)
 	}
 	for k := range s.nonNil {
 		o.nonNil[k] = true
@@ -107,6 +111,19 @@ func meet(a, b *pfState) *pfState {
 			}
 		}
 	}
+	for k, av := range a.ub {
+		for _, x := range av {
+			for _, y := range b.ub[k] {
+				if x.base == y.base {
+					m := x
+					if y.off > m.off {
+						m.off = y.off
+					}
+					o.ub[k] = append(o.ub[k], m)
+				}
+			}
+		}
+	}
 	for k := range a.nonNil {
 		if b.nonNil[k] {
 			o.nonNil[k] = true
@@ -135,6 +152,26 @@ func (s *pfState) equal(o *pfState) bool {
 	for k, v := range s.eq {
 		if o.eq[k] != v {
 			return false
+		}
+	}
+	if len(s.ub) != len(o.ub) {
+		return false
+	}
+	for k, v := range s.ub {
+		w := o.ub[k]
+		if len(v) != len(w) {
+			return false
+		}
+		for _, x := range v {
+			f := false
+			for _, y := range w {
+				if x.base == y.base && x.off == y.off {
+					f = true
+				}
+			}
+			if !f {
+				return false
+			}
 		}
 	}
 	for k, v := range s.lenGE {
@@ -581,6 +618,7 @@ type pfRun struct {
 	liveEdge map[[2]*ssa.BasicBlock]bool // CFG edges that can be taken under the option context
 	phiAlias map[*ssa.Phi]ssa.Value      // phis with a single live incoming edge
 	inIdx    bool
+	phiOf    map[string]*ssa.Phi // key -> loop variable (registered by evalInt)
 }
 
 // key is the access-path key of a value; under an option context a phi with
@@ -815,6 +853,12 @@ func (r *pfRun) evalInt(v ssa.Value, st *pfState) lin {
 	if sv != v {
 		return r.evalInt(sv, st)
 	}
+	if phi, isPhi := v.(*ssa.Phi); isPhi {
+		if r.phiOf == nil {
+			r.phiOf = map[string]*ssa.Phi{}
+		}
+		r.phiOf[r.key(v)] = phi
+	}
 	return lin{r.key(v), 0, nonNegValue(v, nil)}
 }
 
@@ -932,6 +976,8 @@ func (r *pfRun) applyCond(st *pfState, cond ssa.Value, truth bool) bool {
 			}
 			r.lenFact(st, a, op, b)
 			r.lenFact(st, b, flip(op), a)
+			r.ubFact(st, x.X, a, op, b)
+			r.ubFact(st, x.Y, b, flip(op), a)
 			if op == token.EQL {
 				r.eqFact(st, a, b)
 				r.eqFact(st, b, a)
@@ -1052,6 +1098,107 @@ func (r *pfRun) lenFact(st *pfState, a lin, op token.Token, b lin) {
 			st.addLen(S, lin{"", 1, true})
 		}
 	}
+}
+
+// ubFact records an upper bound of a loop variable: `i < e` / `i <= e` on the
+// edge taken, for i a phi (an SSA value: the bound holds wherever the fact
+// reaches) and e a constant, a parameter-like SSA value or the length of one
+// (nothing that a store could change).
+func (r *pfRun) ubFact(st *pfState, av ssa.Value, a lin, op token.Token, b lin) {
+	if _, isPhi := an.Strip(av).(*ssa.Phi); !isPhi || a.base == "" || strings.HasPrefix(a.base, "len:") || strings.Contains(b.base, ".") {
+		return
+	}
+	var u lin
+	switch op {
+	case token.LSS:
+		u = lin{b.base, b.off - 1 - a.off, b.nonNeg}
+	case token.LEQ, token.EQL:
+		u = lin{b.base, b.off - a.off, b.nonNeg}
+	default:
+		return
+	}
+	for i, x := range st.ub[a.base] {
+		if x.base == u.base {
+			if u.off < x.off {
+				st.ub[a.base][i].off = u.off
+			}
+			return
+		}
+	}
+	st.ub[a.base] = append(st.ub[a.base], u)
+}
+
+// constIntExpr: an integer constant, or a sum / difference of constants that
+// go/ssa left unfolded (`read++` on a variable known to be 0).
+func constIntExpr(v ssa.Value) (int64, bool) {
+	if k, ok := an.IntConst(v); ok {
+		return k, true
+	}
+	if bo, ok := v.(*ssa.BinOp); ok && (bo.Op == token.ADD || bo.Op == token.SUB) {
+		a, okA := constIntExpr(bo.X)
+		b, okB := constIntExpr(bo.Y)
+		if okA && okB {
+			if bo.Op == token.ADD {
+				return a + b, true
+			}
+			return a - b, true
+		}
+	}
+	return 0, false
+}
+
+// lockstep: phis of the same loop header that start at constants and are
+// both incremented by one on every back edge differ by a constant:
+// returns q and d with p == q + d for every such partner q of p.
+func lockstep(p *ssa.Phi) map[*ssa.Phi]int64 {
+	out := map[*ssa.Phi]int64{}
+	shape := func(x *ssa.Phi) (init int64, ok bool) {
+		hasInit, hasInc := false, false
+		for _, e := range x.Edges {
+			if k, isK := constIntExpr(e); isK {
+				if hasInit && k != init {
+					return 0, false
+				}
+				init, hasInit = k, true
+				continue
+			}
+			bo, isB := e.(*ssa.BinOp)
+			if !isB || bo.Op != token.ADD || bo.X != ssa.Value(x) {
+				return 0, false
+			}
+			if k, isK := an.IntConst(bo.Y); !isK || k != 1 {
+				return 0, false
+			}
+			hasInc = true
+		}
+		return init, hasInit && hasInc
+	}
+	pi, ok := shape(p)
+	if !ok {
+		return out
+	}
+	for _, in := range p.Block().Instrs {
+		q, isPhi := in.(*ssa.Phi)
+		if !isPhi || q == p || len(q.Edges) != len(p.Edges) {
+			continue
+		}
+		qi, ok := shape(q)
+		if !ok {
+			continue
+		}
+		same := true
+		for i := range p.Edges {
+			_, pc := constIntExpr(p.Edges[i])
+			_, qc := constIntExpr(q.Edges[i])
+			if pc != qc {
+				same = false
+			}
+		}
+		if same {
+			out[q] = pi - qi
+		}
+	}
+	return out
 }
 
 // transfer runs a block; returns the state on each successor edge.
@@ -1683,6 +1830,26 @@ func (e *pfEngine) site(fn *ssa.Function, in ssa.Instruction, kind, what string,
 }
 
 func (r *pfRun) covered(st *pfState, S string, idx lin, strict bool) (bool, string) {
+	return r.coveredD(st, S, idx, strict, 0)
+}
+
+func (r *pfRun) coveredD(st *pfState, S string, idx lin, strict bool, depth int) (bool, string) {
+	if depth < 3 && idx.base != "" {
+		// the index is a loop variable with a known upper bound: i <= u  =>  enough that len(S) covers u + off
+		for _, u := range st.ub[idx.base] {
+			if ok, why := r.coveredD(st, S, lin{u.base, u.off + idx.off, u.nonNeg}, strict, depth+1); ok {
+				return true, fmt.Sprintf("%s <= %s and %s", idx.base, u, why)
+			}
+		}
+		// ... or runs in lockstep with one (p == q + d)
+		if p := r.phiOf[idx.base]; p != nil && depth == 0 {
+			for q, d := range lockstep(p) {
+				if ok, why := r.coveredD(st, S, lin{r.key(q), idx.off + d, idx.nonNeg}, strict, depth+1); ok {
+					return true, fmt.Sprintf("%s == %s%+d (incremented together) and %s", idx.base, r.key(q), d, why)
+				}
+			}
+		}
+	}
 	// need len(S) >= idx+1 (strict) or len(S) >= idx
 	need := idx.off
 	if strict {
@@ -1702,7 +1869,7 @@ func (r *pfRun) covered(st *pfState, S string, idx lin, strict bool) (bool, stri
 		if T == S {
 			continue
 		}
-		if ok, why := r.covered(st, T, lin{idx.base, idx.off - l.off, idx.nonNeg}, strict); ok {
+		if ok, why := r.coveredD(st, T, lin{idx.base, idx.off - l.off, idx.nonNeg}, strict, depth+1); ok {
 			return true, fmt.Sprintf("len(%s) >= %s and %s", S, l, why)
 		}
 	}
